@@ -59,6 +59,7 @@ type Obligation struct {
 	Res       SolverResult
 	Script    string
 	Inputs    []string // names of SMT constants that are inputs (for replay)
+	Before    *Obligation // cover pairs: reachability just before the assumed contract
 }
 
 // FV verifies one function (with its inlined callees).
@@ -577,10 +578,10 @@ func (v *FV) epochGet(e *Epoch, name string) Term {
 			// well-formed initial heap: references stored in it existed before the call
 			switch {
 			case v.arrSort(name) == "(Array Int Int)":
-				v.emit(fmt.Sprintf("(assert (forall ((r Int)) (! (<= (select %s r) N0!) :pattern ((select %s r)))))", t, t))
+				v.emit(fmt.Sprintf("(assert (forall ((r Int)) (! (=> (<= r N0!) (<= (select %s r) N0!)) :pattern ((select %s r)))))", t, t))
 			case strings.HasSuffix(v.arrSort(name), " Int))") && strings.HasPrefix(v.arrSort(name), "(Array Int (Array "):
 				inner := strings.TrimSuffix(strings.TrimPrefix(v.arrSort(name), "(Array Int (Array "), " Int))")
-				v.emit(fmt.Sprintf("(assert (forall ((r Int) (k %s)) (! (<= (select (select %s r) k) N0!) :pattern ((select (select %s r) k)))))", inner, t, t))
+				v.emit(fmt.Sprintf("(assert (forall ((r Int) (k %s)) (! (=> (<= r N0!) (<= (select (select %s r) k) N0!)) :pattern ((select (select %s r) k)))))", inner, t, t))
 			}
 		}
 	case 1:
